@@ -134,7 +134,7 @@ impl<'de, R: io::Read + 'de> Read<'de> for IoReader<R> {
         V: serde::de::Visitor<'de>,
     {
         let bytes = read_primitive_bytes_or_else(self, read_described_bytes)?;
-        visitor.visit_bytes(&bytes)
+        visitor.visit_byte_buf(bytes)
     }
 
     fn forward_read_str<V>(&mut self, len: usize, visitor: V) -> Result<V::Value, Error>
